@@ -32,6 +32,8 @@ CONSTANTS
   MaxKills,       \* bound on SIGKILLs (model only)
   MaxFails,       \* bound on injected build failures (model only)
   FixedHandlers,  \* TRUE: root-logger handlers restored on the failure path too
+  FixedMarker,    \* TRUE: the ready marker is written under a temporary name and renamed into place
+                  \*       (CheckMarker, then WriteMarker = os.replace); FALSE: open(ready, "x") + write
   Timely          \* TRUE: a waiter's clock only advances while the builder makes progress
                   \*       ("within the timeout"): used for the no-timeout property
 
@@ -44,7 +46,8 @@ VARIABLES
   hand,      \* [Proc -> "orig"|"tmp"] logging.getLogger().handlers
   out,       \* [Proc -> "orig"|"tmp"] sys.stdout
   cwd,       \* [Proc -> "orig"|"tmp"] os.getcwd()
-  fault,     \* [Proc -> "none"|"codegen"|"cc"|"link"] failure this request will meet
+  fault,     \* [Proc -> "none"|"codegen"|"cc"|"link"|"marker"] failure this request will meet
+             \* ("marker": writing the content of the ready marker raises, e.g. ENOSPC)
   sawCached, \* [Proc -> BOOLEAN]     the marker was present when the request started
   built,     \* [Proc -> BOOLEAN]     this request ran the C compiler
   prog,      \* [Proc -> BOOLEAN]     (Timely) builder progress seen since the last sleep
@@ -58,12 +61,12 @@ vars == <<fs, pc, key, polls, loaded, hand, out, cwd, fault, sawCached, built, p
 view == <<fs, pc, key, polls, loaded, hand, out, cwd, fault, sawCached, built, prog,
           compilers, reqs, kills, fails>>
 
-BuilderPc == {"gen", "ccsrc", "ccobj", "link", "linking", "mark", "bload", "frename"}
+BuilderPc == {"gen", "ccsrc", "ccobj", "link", "linking", "mark", "publish", "bload", "frename"}
 WaiterPc  == {"poll", "sleep", "wload"}
 EndPc     == {"ret", "raise_fail", "raise_timeout"}      \* about to leave compile_forms
 DonePc    == {"idle", "returned", "raised_fail", "raised_timeout", "dead"}
 AllPc     == BuilderPc \cup WaiterPc \cup EndPc \cup DonePc \cup {"trylock"}
-FaultKind == {"none", "codegen", "cc", "link"}
+FaultKind == {"none", "codegen", "cc", "link", "marker"}
 
 \* owner: the process whose exclusive create made the present <k>.c ("none" if there is no <k>.c)
 File0 == [c |-> "absent", owner |-> "none", cached |-> FALSE, failed |-> FALSE, obj |-> FALSE,
@@ -182,15 +185,35 @@ LinkEnd(p) ==
   /\ Progress(p) /\ Step("LinkEnd", p)
   /\ UNCHANGED <<key, polls, loaded, fault, sawCached, built, compilers, reqs, kills, fails>>
 
-(* open(ready_name, "x"): an error if the marker exists already.  On success the code goes *)
-(* on to restore the root logger's handlers before the next intercepted call (the import).  *)
+(* Publishing the ready marker.                                                            *)
+(* FixedMarker = FALSE (the code as it was): open(ready_name, "x") - an error if the marker *)
+(*   exists already - then fd.write(s).  If the write raises, the marker stays behind although *)
+(*   the build is reported as failed.                                                       *)
+(* FixedMarker = TRUE: ready_name.exists() is checked (CheckMarker), the content is written  *)
+(*   under a temporary name (not observable: no protocol file is touched; this is where the  *)
+(*   "marker" fault strikes) and os.replace(tmp, ready_name) publishes it (WriteMarker).     *)
+(* On success the code goes on to restore the root logger's handlers before the next        *)
+(* intercepted call (the import).                                                           *)
+CheckMarker(p) ==
+  /\ FixedMarker /\ pc[p] = "mark"
+  /\ IF fs[key[p]].cached \/ fault[p] = "marker"
+       THEN /\ pc' = [pc EXCEPT ![p] = "frename"]
+            /\ hand' = IF FixedHandlers THEN [hand EXCEPT ![p] = "orig"] ELSE hand
+       ELSE pc' = [pc EXCEPT ![p] = "publish"] /\ hand' = hand
+  /\ Progress(p) /\ Step("CheckMarker", p)
+  /\ UNCHANGED <<fs, key, polls, loaded, out, cwd, fault, sawCached, built, compilers, reqs, kills, fails>>
+
 WriteMarker(p) ==
-  /\ pc[p] = "mark"
-  /\ IF fs[key[p]].cached
+  /\ pc[p] = IF FixedMarker THEN "publish" ELSE "mark"
+  /\ IF ~FixedMarker /\ fs[key[p]].cached
        THEN /\ fs' = fs /\ pc' = [pc EXCEPT ![p] = "frename"]
             /\ hand' = IF FixedHandlers THEN [hand EXCEPT ![p] = "orig"] ELSE hand
-       ELSE /\ fs' = FsAfterMarker(key[p]) /\ pc' = [pc EXCEPT ![p] = "bload"]
-            /\ hand' = [hand EXCEPT ![p] = "orig"]
+       ELSE IF ~FixedMarker /\ fault[p] = "marker"
+         THEN \* the marker exists now, fd.write raises: a marker is left for a build reported as failed
+              /\ fs' = FsAfterMarker(key[p]) /\ pc' = [pc EXCEPT ![p] = "frename"]
+              /\ hand' = IF FixedHandlers THEN [hand EXCEPT ![p] = "orig"] ELSE hand
+         ELSE /\ fs' = FsAfterMarker(key[p]) /\ pc' = [pc EXCEPT ![p] = "bload"]
+              /\ hand' = [hand EXCEPT ![p] = "orig"]
   /\ Progress(p) /\ Step("WriteMarker", p)
   /\ UNCHANGED <<key, polls, loaded, out, cwd, fault, sawCached, built, compilers, reqs, kills, fails>>
 
@@ -252,7 +275,7 @@ Kill(p) ==
 
 ProcStep(p) ==
   \/ TryLock(p) \/ Codegen(p) \/ CcSource(p) \/ CcObject(p) \/ LinkBegin(p) \/ LinkEnd(p)
-  \/ WriteMarker(p) \/ LoadBuilder(p) \/ FailRename(p)
+  \/ CheckMarker(p) \/ WriteMarker(p) \/ LoadBuilder(p) \/ FailRename(p)
   \/ Poll(p) \/ Sleep(p) \/ LoadWaiter(p) \/ Return(p)
 
 Next == \E p \in Proc :
@@ -301,6 +324,8 @@ NoTimeoutWhenTimely == (Timely /\ fails = 0 /\ kills = 0) => \A p \in Proc : pc[
 FailureReleasesLock == \A p \in Proc : pc[p] \in {"raise_fail", "raised_fail"} => (fs[key[p]].owner # p /\ fs[key[p]].failed)
 \* ... so the next request builds afresh instead of waiting
 NextBuildsAfresh == [][\A p \in Proc : (pc[p] = "trylock" /\ fs[key[p]].c = "absent") => pc'[p] \in {"trylock", "gen", "dead"}]_vars
+\* ... and a request that met no fault itself never ends in a build failure ("never poisons later requests")
+UnfaultedNeverFails == \A p \in Proc : pc[p] \in {"raise_fail", "raised_fail"} => fault[p] # "none"
 \* ... and process-global state is as it was found when the call ends (by return or by raise)
 GlobalStateRestored == \A p \in Proc : pc[p] \in EndPc \cup (DonePc \ {"dead"}) =>
                           (hand[p] = "orig" /\ out[p] = "orig" /\ cwd[p] = "orig")
